@@ -42,12 +42,18 @@ func symxC10Lagging() {
 			B.st.NotifyMsg(p)
 		}
 	}
-	if rt.Bool("b_writes") {
+	bWrote := rt.Bool("b_writes")
+	if bWrote {
 		symxNow += 10
 		symxLocalOp(B, 2, 6)
 		rt.Drain(B.q) // lost as well
 	}
 	B.st.MergeRemoteState(A.st.LocalState(true), true)
+	if !bWrote {
+		// B only ever saw part of A's history: one snapshot from A is enough to catch up,
+		// additions and removals alike
+		rt.Assert(symxSameView(A.view(), B.view()), "C10.one_snapshot_brings_a_pure_follower_up_to_date")
+	}
 	A.st.MergeRemoteState(B.st.LocalState(true), true)
 	rt.Assert(symxSameView(A.view(), B.view()), "C10.both_directions_make_nodes_agree")
 	rt.Cover(lost, "C10.some_gossip_lost")
